@@ -323,7 +323,10 @@ func Solve(dir, name, query string, timeoutS int, agree bool) SolveResult {
 	// first a single fast configuration alone (most obligations are decided by it in well under a second);
 	// the full race only when it gives no definite answer. With `agree` all configurations always run.
 	if !agree {
-		lead := solverCfgs[2] // cvc5
+		lead := solverCfgs[2] // cvc5: best at refuting
+		if strings.HasPrefix(name, "cover_") {
+			lead = solverCfgs[0] // z3 5.1: best at finding models
+		}
 		lt := 3
 		if timeoutS < lt {
 			lt = timeoutS
